@@ -5,12 +5,29 @@ from vlib import core
 THEOREMS = ["Props.C11." + t for t in [
     "schema_ok", "codec_roundtrip", "request_roundtrip", "response_roundtrip", "marshal_total", "write_ends_with_stop",
     "compress_decompress", "trailer_detected", "trailer_absent", "trailer_ignored_by_reader",
-    "version_gate", "params_order", "fault_fails", "answer_honoured", "warnings_shown_on_failure", "each_generate_runs_own_plugins", "plugin_params_own"]]
+    "version_gate", "params_order", "fault_fails", "answer_honoured", "warnings_shown_on_failure", "each_generate_runs_own_plugins", "plugin_params_own", "plugin_sees_compiler_ast", "gate_constants_match_source"]]
 
 
 def run(ctx):
     exe = ctx.go_build("c11")
     plug = ctx.go_build("c11plugin")
+    # the recording plugin built three more times with a thriftgo version in its build info (what Execute's
+    # gate reads): alternative go.mod files `require github.com/cloudwego/thriftgo vX` + the same replace
+    variants = {}
+    if plug:
+        import re
+        gm = open(os.path.join(ctx.harness, "go.mod")).read()
+        for v in ("v0.4.1", "v0.4.2", "v0.4.3"):
+            alt = os.path.join(ctx.harness, "go.%s.mod" % v)
+            open(alt, "w").write(re.sub(r"(?m)^(\s*(?:require\s+)?github.com/cloudwego/thriftgo )v\S+", lambda m: m.group(1) + v, gm, count=1))
+            core.sh(["cp", os.path.join(ctx.harness, "go.sum"), alt[:-4] + ".sum"])
+            out = os.path.join(ctx.work, "c11plugin-" + v)
+            rc, log = core.sh(["go", "build", "-modfile=" + alt, "-tags", "verif", "-o", out, "./cmd/c11plugin"], cwd=ctx.harness, timeout=900)
+            if rc == 0:
+                variants[v] = out
+            else:
+                ctx.obligation("harness-build:c11plugin@" + v, False, log[-2000:])
+    vflag = ",".join("%s=%s" % kv for kv in sorted(variants.items()))
     thriftgo = None
     try:
         thriftgo = ctx.go_build_repo(".", "thriftgo-c11")
@@ -26,7 +43,8 @@ def run(ctx):
         "the fast codec of k-AST.go/k-protocol.go computes what Gen.Std.write/read compute on the regenerated schema "
         "(checked on every generated request, both directions, bytes up to Go map iteration order)",
         "pointer graphs of includes are modelled by their unfolding; the Go memo map of pointers by a key set plus the pointees' final contents",
-        "include compression is reached through the verif export hooks (a locally built plugin never reports thriftgo >= v0.4.2)",
+        "include compression is reached through the verif export hooks in-process, and through the real Execute path at process level "
+        "(the recording plugin is rebuilt with `require github.com/cloudwego/thriftgo v0.4.1|v0.4.2|v0.4.3` + replace, so its build info reports that version)",
         "cloudwego/gopkg BinaryProtocol (ReadFieldBegin, Skip, Append*) as modelled by Core.Wire",
         "process level is runtime-observed: exit status, stderr, output tree, request digest recorded by the plugin, /proc/<pid> after the time limit"]
     ctx.partial += ["process faults (exit code, timeout kill, pipes) are observed at run time, the theorem fault_fails covers the decision logic only",
@@ -35,7 +53,7 @@ def run(ctx):
     if exe and ctx.replay:
         cmd = [exe, "replay", "-repo", core.REPO, "-file", ctx.replay]
         if thriftgo and plug:
-            cmd += ["-thriftgo", thriftgo, "-plugin", plug]
+            cmd += ["-thriftgo", thriftgo, "-plugin", plug, "-plugins", vflag]
         rc, out = core.sh(cmd, timeout=600)
         fails = []
         if rc == 0:
@@ -65,7 +83,7 @@ def run(ctx):
     if exe:
         cmd = [exe, "run", "-repo", core.REPO, "-dir", ctx.work, "-seed", str(ctx.seed), "-tier", ctx.tier]
         if thriftgo and plug:
-            cmd += ["-thriftgo", thriftgo, "-plugin", plug]
+            cmd += ["-thriftgo", thriftgo, "-plugin", plug, "-plugins", vflag]
         rc, out = core.sh(cmd, timeout=3000)
         if rc != 0:
             raise core.MachineryError("c11 run failed: " + out[-2000:])
